@@ -258,7 +258,7 @@ def explore(ctx, drv, model, cases, search=False):
             # the model says that Interval n Integers enumerates more than ENUM_LIMIT elements (the library may or
             # may not finish within the driver's time limit), or it reached a branch that is unreachable for
             # numbers of the fragment: nothing is compared
-            ctx.cov["undefined_behaviour_not_compared"] = ctx.cov.get("undefined_behaviour_not_compared", 0) + 1
+            ctx.cov["long_enumeration_or_unreachable_not_compared"] = ctx.cov.get("long_enumeration_or_unreachable_not_compared", 0) + 1
             continue
         key = (op, f[0])
         if key not in seen and not mres.startswith("R:EXN") and "Atom" not in f[0].split(" ;; ")[0][:6]:
